@@ -202,6 +202,7 @@ class ColdServer:
             if req is None:
                 return
             plan, timeout = req
+            timeout = plan['header'].get('soft_timeout') or timeout
             pid = os.fork()
             if pid == 0:
                 try:
@@ -224,7 +225,10 @@ class ColdServer:
                             mod.shutdown()
                     finally:
                         os._exit(0)
-            os.waitpid(pid, 0)
+            _, status = os.waitpid(pid, 0)
+            if os.WIFSIGNALED(status):
+                # the run was cut off (its alarm fired, or it crashed) before it could answer: answer for it
+                conn.send(('killed', os.WTERMSIG(status), None))
 
     def run(self, plan, timeout):
         self.conn.send((plan, timeout))
@@ -281,6 +285,13 @@ def _run_chunk_loop(mod, seeds, tier, opts, res, executed, cold, cold_every, wan
             dg = None
             if is_cold:
                 tag, out, dg = cold.run(plan, opts.get('run_timeout', 120))
+                if tag == 'killed' and plan['header'].get('soft_timeout') and out == signal.SIGALRM:
+                    # a run of a family with a soft cost budget (protein-sized input) went over it: not judged
+                    res['runs'] += 1
+                    res['probes']['cold_run_abandoned_over_soft_budget'] += 1
+                    if want_digests:
+                        res['digests'][seed] = 'over-soft-budget'
+                    continue
                 if tag == 'dirty':
                     raise HarnessError("process-wide state differs from import-time content in a cold process")
                 if tag != 'ok':
